@@ -1,9 +1,23 @@
-"""C07 -- decided on bounded symbolic runs of the real main loop (engine: props/runs.py, front end: props/runcheck.py)."""
+"""C07 -- decided on bounded symbolic runs of the real main loop (engine: props/runs.py, front end: props/runcheck.py)
+plus the step of the real CellBoundaryEventHandler in a non-cubic box (harness of C11): the unit lands on the boundary
+it was computed to reach, at its old position advanced by velocity times elapsed time."""
 import os
 import sys
 
 sys.path.insert(0, os.path.dirname(os.path.abspath(__file__)))
 import runcheck  # noqa: E402
 
+
+def boundary_step(chk):
+    import C11 as c11
+    chk.encoded(c11.CellBoundaryEventHandler.send_event_time, c11.CellBoundaryEventHandler.send_out_state)
+    chk.bound(cell_boundary_step="non-cubic box 1.0 x 2.0 with 4 x 5 cells and 1-D box with 6 cells, every direction "
+                                 "and sense, symbolic position / speed / time stamp")
+    chk.register_replay("occ", c11.replay_occ)
+    tasks = [((1.0, 2.0), (4, 5), 1, 2, 0, False, a, "boundary") for a in range(2)]
+    tasks += [((1.0,), (6,), 1, 2, 0, False, 0, "boundary")]
+    chk.explore_parallel(tasks, c11.explore)
+
+
 if __name__ == "__main__":
-    runcheck.main("C07")
+    runcheck.main("C07", extra_parts=boundary_step)
